@@ -39,6 +39,11 @@ fn text_for(construct: &str, depth: usize) -> String {
         "skipand" => format!("false and {}true", "!".repeat(depth)),
         "skipor" => format!("true or {}i1{}", "[".repeat(depth), "]".repeat(depth)),
         "skipif" => format!("if true then i1 else {}a", "-".repeat(depth)),
+        // deep items after an item that fails: evaluation stops at the failing item
+        "skiplist" => format!("[missing, {}a]", "-".repeat(depth)),
+        "skipmap" => format!("{{a: missing, b: {}i1{}}}", "[".repeat(depth), "]".repeat(depth)),
+        "skipcallarg" => format!("nofn([missing, {}true])", "!".repeat(depth)),
+        "escapes" => format!("\"{}\"", "\\\\\\t\\\"".repeat(depth)),
         _ => panic!("unknown construct {construct}"),
     }
 }
